@@ -78,7 +78,7 @@ DestUsable(e) == e.d # NULLP /\ e.dmax # 0 /\ e.dmax # HUGE /\ (e.dbos = UNK \/ 
 DestViol(e) == {c \in {ESNULLP} : e.d = NULLP}
           \cup {c \in {ESZEROL} : e.dmax = 0}
           \cup {c \in {ESLEMAX} : e.dmax = HUGE}
-          \cup {c \in {EOVERFLOW} : e.dbos # UNK /\ e.dmax # HUGE /\ e.dmax > e.dbos}
+          \cup {c \in {EOVERFLOW} : e.dbos # UNK /\ (e.dmax = HUGE \/ e.dmax > e.dbos)}     \* (an oversize dmax also exceeds a known object: either code)
 
 (* what may happen to memory when a destination constraint is violated: nothing is
    touched, except that with a known object size smaller than dmax the library may
